@@ -8,12 +8,11 @@
 (***************************************************************************)
 EXTENDS TxSim, Json
 
-CONSTANTS MaxR, Langs
+CONSTANTS MaxR, Langs, Kinds, ScriptLocs, DatumKinds
 
 Purposes == {"spend", "mint", "withdraw"}
-Kinds == {"cheap", "costly", "picky", "fail"}
 Entry == {[purpose |-> p, kind |-> k, lang |-> l, script |-> s, datum |-> d] :
-            p \in Purposes, k \in Kinds, l \in Langs, s \in {"witness", "reference", "missing"}, d \in {"inline", "witness", "missing", "none"}}
+            p \in Purposes, k \in Kinds, l \in Langs, s \in ScriptLocs, d \in DatumKinds}
 \* a datum only makes sense on a spent output; keep one representative otherwise; a missing script needs no further variety
 Sensible(r) == /\ (r.purpose # "spend" => r.datum = "none")
                /\ (r.script = "missing" => r.kind = "cheap")
